@@ -238,6 +238,7 @@ func extractFacts(args []string) {
 			})
 		}
 		o.def("balanceProcessorOrder", "List String", leanStrList(order))
+		factsBalanceCmd(o, ff) // the arguments of the processors, the setup statements, the renderer literals, the flags (facts_balancecmd.go)
 	}
 	// ---- per-day callback order in Processor.Process
 	if ff, err := parseGo(filepath.Join(*repo, "lib/journal/journal.go")); err != nil {
